@@ -198,6 +198,9 @@ def make_result_check(prop, terms, extra_kinds=(), oracle_keys=(), seq=None, wit
         direct = k3_select(res, ["result", "run"], pred)
         indirect = k3_select(res, list(extra_kinds), pred)
         report_k3(rep, prop, res, direct, indirect, list(oracle_keys))
+        if seq is None:
+            _, d4, i4 = k4_part(rep, tier, seed, ["result", "run"], terms)
+            report_k4(rep, prop, d4, [], "")
         if with_k1:
             r1, mism = k1_part(rep, tier, seed)
             if mism:
@@ -218,6 +221,8 @@ def check_C05(rep, tier, seed):
     res = k3_part(rep, tier, seed)
     indirect = k3_select(res, ["calls", "clog"])
     report_k3(rep, "C05", res, [], indirect, ["C05"])
+    _, d4, i4 = k4_part(rep, tier, seed, ["calls", "seen"])
+    report_k4(rep, "C05", [], i4, "closure calls / element-to-worker map")
 
 
 def check_C09(rep, tier, seed):
@@ -239,6 +244,8 @@ def check_C08(rep, tier, seed):
     coq_part(rep, "C08")
     res = k3_part(rep, tier, seed)
     report_k3(rep, "C08", res, [], [], ["C08"])
+    r4, d4, i4 = k4_part(rep, tier, seed, ["spawned"])
+    report_k4(rep, "C08", [], i4, "number of workers spawned")
     r1, mism = k1_part(rep, tier, seed)
     if mism:
         corr_failure(rep, "K1", mism, [], str)
@@ -280,6 +287,10 @@ def check_C16(rep, tier, seed):
 def more_C11(rep, tier, seed):
     res = k3_part(rep, tier, seed)
     report_k3(rep, "C11", res, [], [], ["C11"])
+    r4, d4, i4 = k4_part(rep, tier, seed, ["chunks", "seen"])
+    # direct oracle on the replays: with Exact(c) every pull of every worker is c elements
+    # (fewer only for the pull that reaches the end): consecutive positions per worker in blocks of c
+    report_k4(rep, "C11", [], i4, "chunk sizes handed to workers / pulls")
 
 
 def more_C15(rep, tier, seed):
@@ -314,6 +325,44 @@ def check_C10(rep, tier, seed):
     finds = {"find", "findix", "first", "firstix", "any", "all"}
     direct = k3_select(r3, ["seq_order"], lambda m: m.get("term") in finds)
     report_k3(rep, "C10", r3, direct, [], [])
+
+
+def k4_part(rep, tier, seed, kinds, terms=None):
+    """K4 mismatches of the given kinds (restricted to the given terminals for 'result')"""
+    import k4
+    res = k4.run_k4(tier, seed)
+    rep.correspondences.append("K4 deterministic scheduler: real threads serialised under adversarial pick lists vs the model's "
+                               "macro-schedule: spawn sequence, chunk sizes, worker->positions map, every closure call, result")
+    rep.evaluations += res["total"]
+    rep.traces += res["total"] - res["inconclusive"]
+    rep.k4_nontrivial = res["nontrivial"]
+    for k, v in res["dist"].items():
+        rep.count("k4_" + k, v)
+    rep.count("k4_inconclusive", res["inconclusive"])
+    for s in res["samples"][:2]:
+        rep.sample({"k4": s})
+    for e in res["errors"]:
+        rep.violation("K4 could not run: " + e, {"failing_input_found": False, "theorem_or_correspondence": "K4"})
+    direct, indirect = [], []
+    for kind in kinds:
+        for m in res["mismatch"].get(kind, []):
+            if kind in ("result", "run"):
+                if terms is None or m.get("term") in terms:
+                    direct.append((kind, m))
+            else:
+                indirect.append((kind, m))
+    return res, direct, indirect
+
+
+def report_k4(rep, prop, direct, indirect, what_indirect):
+    if direct:
+        for kind, m in direct[:3]:
+            rep.violation("under a chosen schedule (%s) the %s differs from the sequential specification" % (m.get("style"), kind),
+                          {"failing_input_found": True, "correspondence": "K4", "input": m})
+    elif indirect:
+        for kind, m in indirect[:2]:
+            rep.violation("%s: %s differs from the model under schedule style %s" % (what_indirect, kind, m.get("style")),
+                          {"failing_input_found": True, "correspondence": "K4/" + kind, "input": m})
 
 
 def k6_part(rep, tier, seed):
@@ -377,6 +426,7 @@ def main(prop, tier, seed, replay):
     rep.k3_nontrivial = 0
     rep.k10_nontrivial = 0
     rep.k6_nontrivial = 0
+    rep.k4_nontrivial = 0
     if replay:
         rep.notes.append("replay of %s: the check re-runs the recorded case first" % replay)
         os.environ["VERIF_REPLAY"] = replay
@@ -397,6 +447,8 @@ def main(prop, tier, seed, replay):
         rep.nontrivial.add(("k10", i))
     for i in range(rep.k6_nontrivial):
         rep.nontrivial.add(("k6", i))
+    for i in range(rep.k4_nontrivial):
+        rep.nontrivial.add(("k4", i))
     return rep.finish(
         level_text=LEVEL_TEXT.get(prop, "theorems over the Coq model + correspondence runs against /repo"),
         trusted_base=TRUSTED_BASE,
